@@ -354,3 +354,31 @@ Proof.
   apply andb_true_iff in Ea. destruct Ea as [A B]. apply negb_true_iff in B.
   unfold yaqlize_obj in *. destruct (effective o) eqn:E; [congruence|]. cbn [h_inst h_class]. auto.
 Qed.
+
+(* ------------------------------------------------------------------------------------------
+   4. the index form consults only the object's indexing protocol
+   ------------------------------------------------------------------------------------------ *)
+Lemma index_not_subscriptable : forall rs ps st n,
+  (forall m, index_on rs ps INoStr st n <> Reach m) /\
+  (index_on rs ps INoStr st n = Denied EType <-> exists m, access rs ps FIndex st n = Reach m).
+Proof.
+  intros rs ps st n. unfold index_on. destruct (access rs ps FIndex st n) as [e|m] eqn:E.
+  - split; [intros m H; discriminate|]. split.
+    + intro H. inversion H; subst e. exfalso. unfold access in E. destruct st as [s|]; [|discriminate].
+      destruct (negb (switch FIndex s)); [discriminate|]. destruct (validate_name rs ps n s); cbn in E; discriminate.
+    + intros [m H]. discriminate.
+  - split; [intros m' H; discriminate|]. split; [intros _; exists m; reflexivity | reflexivity].
+Qed.
+
+Lemma index_subscriptable : forall rs ps st n, index_on rs ps ISubscript st n = access rs ps FIndex st n.
+Proof. intros rs ps st n. unfold index_on. destruct (access rs ps FIndex st n); reflexivity. Qed.
+
+(* the index form looks at the indexer switch, the whitelist and the blacklist only: the attribute and
+   method switches, the auto flag and the remapping table play no part *)
+Lemma index_ignores_attribute_settings : forall rs ps p s s' n,
+  s_indexer s = s_indexer s' -> s_white s = s_white s' -> s_black s = s_black s' ->
+  index_on rs ps p (Some s) n = index_on rs ps p (Some s') n.
+Proof.
+  intros rs ps p s s' n Hi Hw Hb. unfold index_on, access. cbn [switch]. rewrite Hi.
+  unfold validate_name. rewrite Hw, Hb. reflexivity.
+Qed.
